@@ -294,7 +294,7 @@ def scope_correspondence(tier, seed):
     n = 60 if tier == "quick" else 800
     for i in range(n):
         ops, _ = progs.generate(rng.randrange(1 << 60), rng.randrange(5, 22), rng.choice(["json", "mixed", "records"]), observe_each=False)
-        programs.append([o for o in ops if o[0] not in ("ExportJson", "ExportProvn", "LoadJson", "ToGraph", "GraphRoundTrip", "ObserveAll")])
+        programs.append(progs.without_exports(ops))
     PROVU = "http://www.w3.org/ns/prov#"
     exp, reqs = [], []
     for ops in programs:
@@ -354,7 +354,7 @@ def document_correspondence(tier, seed):
     n = 40 if tier == "quick" else 600
     for i in range(n):
         ops, _ = progs.generate(rng.randrange(1 << 60), rng.randrange(5, 22), rng.choice(["json", "mixed", "records"]), observe_each=False)
-        programs.append([o for o in ops if o[0] not in ("ExportJson", "ExportProvn", "LoadJson", "ToGraph", "GraphRoundTrip", "ObserveAll")])
+        programs.append(progs.without_exports(ops))
 
     def canon(t, container=True):
         kids = [canon(k, k[2] == "bundleContent") for k in t[6]]
